@@ -331,3 +331,54 @@ contract(
 lemma("dominance", {"S": "int", "k1": "int", "t1": "int", "k2": "int", "t2": "int"},
       ["S >= 1", "1 <= k1", "k1 < k2", "1 <= t1", "t1 <= S", "1 <= t2", "t2 <= S"],
       "S * (k1 - 1) + t1 < S * (k2 - 1) + t2")
+
+
+# ====================================================================== declared bounds (C02)
+# lower_bound() / upper_bound() of the three base classes (the other four inherit them) as functions of the instance
+# attributes, and the lemmas "every value of the form scale*(k-1)+tie that a feasible packing can produce lies between
+# them".  What the lemmas take from elsewhere: L <= k (the instance's bin lower bound is valid: C03, assumption A2) and
+# k <= N (every bin of a feasible packing holds an item: C01/C04).
+_IA = {"self._instance.n_items": "N", "self._instance.lower_bound_bins": "L", "self._instance.total_item_area": "TA",
+       "self._instance.bin_width": "W", "self._instance.bin_height": "H"}
+contract(OB + "bin_count:BinCount.lower_bound", props="C02", params={}, ghosts={"L": PYINT}, attrs=_IA, i64=False,
+         returns=PYINT, ensures=[tag("C02", "declared-lower-bound", "result == L")])
+contract(OB + "bin_count:BinCount.upper_bound", props="C02", params={}, ghosts={"N": PYINT}, attrs=_IA, i64=False,
+         returns=PYINT, ensures=[tag("C02", "declared-upper-bound", "result == N")])
+contract(OB + "bin_count:BinCount.to_bin_count", props="C02", params={"z": PYINT}, i64=False, returns=PYINT,
+         ensures=[tag("C02", "converts-back-to-bin-count", "result == z")])
+contract(OB + "bin_count_and_last_empty:BinCountAndLastEmpty.lower_bound", props="C02", params={},
+         ghosts={"L": PYINT, "N": PYINT}, attrs=_IA, i64=False, returns=PYINT,
+         ensures=[tag("C02", "declared-lower-bound", "result == max(N, (L - 1) * N + 1)")])
+contract(OB + "bin_count_and_last_empty:BinCountAndLastEmpty.upper_bound", props="C02", params={},
+         ghosts={"N": PYINT}, attrs=_IA, i64=False, returns=PYINT,
+         ensures=[tag("C02", "declared-upper-bound", "result == N * N")])
+# smallest item area of the instance matrix (rows 0..k-1)
+spec("minarea(inst, k)", "inst[0, 0] * inst[0, 1] if k <= 1 else min(minarea(inst, k - 1), inst[k - 1, 0] * inst[k - 1, 1])",
+     ptypes=["arr2", "int"])
+contract(OB + "bin_count_and_last_small:BinCountAndLastSmall.lower_bound", props="C02", params={},
+         ghosts={"L": PYINT, "TA": PYINT, "W": PYINT, "H": PYINT, "inst": A2("I", cols=3)}, i64=False, returns=PYINT,
+         attrs=dict(_IA, **{"self._instance": "inst"}),
+         requires=["shape(inst, 0) >= 1", "forall(r, 0, shape(inst, 0), inst[r, 0] >= 1 and inst[r, 1] >= 1)", "L >= 1"],
+         loops={"0": Loop(index="r", inv=["0 <= r and r <= shape(inst, 0)",
+                                          "implies(r == 0, smallest_area == -1)",
+                                          "implies(r >= 1, smallest_area == minarea(inst, r) and smallest_area >= 1)"])},
+         ensures=[tag("C02", "declared-lower-bound",
+                      "result == (TA if L == 1 else (L - 1) * H * W + minarea(inst, shape(inst, 0)))")])
+contract(OB + "bin_count_and_last_small:BinCountAndLastSmall.upper_bound", props="C02", params={},
+         ghosts={"N": PYINT, "W": PYINT, "H": PYINT}, attrs=_IA, i64=False, returns=PYINT,
+         ensures=[tag("C02", "declared-upper-bound", "result == N * H * W")])
+
+# value = N*(k-1) + cnt with cnt = number of items in the last (or in the emptiest) bin
+lemma("bounds_item_count", {"N": "int", "L": "int", "k": "int", "cnt": "int", "z": "int"},
+      ["N >= 1", "1 <= L", "L <= k", "k <= N", "1 <= cnt", "cnt <= N", "implies(k == 1, cnt == N)", "z == N * (k - 1) + cnt"],
+      "max(N, (L - 1) * N + 1) <= z and z <= N * N",
+      note="BinCountAndLastEmpty / BinCountAndEmpty: every value lies within [lower_bound(), upper_bound()]")
+# value = A*(k-1) + ar with ar = area covered in the last (or in the least covered) bin; sm = smallest item area
+lemma("bounds_area", {"N": "int", "L": "int", "k": "int", "A": "int", "TA": "int", "sm": "int", "ar": "int", "z": "int"},
+      ["N >= 1", "A >= 1", "1 <= L", "L <= k", "k <= N", "1 <= sm", "sm <= ar", "ar <= A", "implies(k == 1, ar == TA)",
+       "implies(L == 1, TA <= A)", "z == A * (k - 1) + ar"],
+      "(TA if L == 1 else (L - 1) * A + sm) <= z and z <= N * A",
+      note="BinCountAndLastSmall / BinCountAndSmall: every value lies within [lower_bound(), upper_bound()]; "
+           "L == 1 implies TA <= A because L >= ceil(TA / A) (C03)")
+lemma("bounds_bin_count", {"N": "int", "L": "int", "k": "int"}, ["1 <= L", "L <= k", "k <= N"], "L <= k and k <= N",
+      note="BinCount: the value is the bin count itself")
